@@ -200,44 +200,86 @@ def run(ctx):
             I.st = st
             return I.call(chk, [byte_forms(I, "w", 12), byte_forms(I, "k", 3)], {})
 
-        accept = []
+        accept, reject = [], []          # (equalities as forms that must be 0, disequalities as (forms, value) that must differ)
         for st, (kind, v) in explore(run_c, max_paths=2000):
             if kind == "abort":
                 raise AnalysisError(f"{chk.qualname}: {v}")
             if kind == "raise":
                 continue
             I.st = st
-            cons = []
+            cons, dis = [], []
             for key, const, eq_ in st.eqs:
+                w = len(key)
                 if eq_:
-                    w = len(key)
                     cons += [f ^ ((const >> (w - 1 - i)) & 1) for i, f in enumerate(key)]
+                else:
+                    dis.append(([f ^ ((const >> (w - 1 - i)) & 1) for i, f in enumerate(key)]))   # not all of these are 0
             if v is True:
-                accept.append(cons)
+                accept.append((cons, dis))
             elif isinstance(v, ACond) and v.kind == "eqseq":
                 a, b = v.parts
-                accept.append(cons + [x ^ y for x, y in zip(a.items, b.items)])
+                d = [x ^ y for x, y in zip(a.items, b.items)]
+                accept.append((cons + d, dis))
+                reject.append((cons, dis + [d]))
             elif v is False:
-                continue
+                reject.append((cons, dis))
             else:
                 raise AnalysisError(f"{chk.qualname}: result {v!r} not modelled")
         w = [I.raw_atom(("w", i)) for i in range(96)]   # reference forms: not rewritten by the path explored last
         k = [I.raw_atom(("k", i)) for i in range(24)]
         syn = syndromes(octets(w[:72] + [b ^ kk for b, kk in zip(w[72:], k)]))
-        if len(accept) != 1:
-            if not accept:
-                ctx.ob("rs/check-exact", q, False, "check accepts nothing", chk.loc)
-            else:
-                raise AnalysisError(f"{chk.qualname}: {len(accept)} accepting paths")
-        else:
-            cons = accept[0]
-            if not all(isinstance(c, F) for c in cons):
-                raise AnalysisError(f"{chk.qualname}: opaque acceptance condition")
-            rank = lambda fs: alg.gf2_rank([(f.m << 1) | f.c for f in fs])
-            rc, rs, rb = rank(cons), rank(syn), rank(cons + syn)
-            ctx.ob("rs/check-exact", q, rc == rs == rb == 24,
-                   f"acceptance condition rank {rc}, syndrome equations rank {rs}, joint {rb} (all must be 24)"
-                   + ("" if rc == rs == rb == 24 else f": the checker accepts a {'larger' if rc < 24 else 'different'} set than the code"), chk.loc)
+        nat = len(I.atoms.names)
+        if any(not isinstance(c, F) for cs, ds in accept + reject for c in cs + [x for d in ds for x in d]):
+            raise AnalysisError(f"{chk.qualname}: opaque acceptance condition")
+        mc = lambda fs: [(f.m, f.c) for f in fs]
+
+        def value(f, x):
+            return (bin(f.m & x).count("1") & 1) ^ f.c
+
+        def word(x):
+            bits = [value(f, x) for f in w]
+            key = [value(f, x) for f in k]
+            return "word " + "".join(f"{int(''.join(map(str, bits[i:i + 8])), 2):02x}" for i in range(0, 96, 8)) + " mask " + "".join(f"{int(''.join(map(str, key[i:i + 8])), 2):02x}" for i in range(0, 24, 8))
+
+        def witness(eqs, dis, want_codeword):
+            """an input that satisfies the path (equalities and disequalities) and is / is not a codeword, among the solution of the
+            equalities with all free bits 0 and its neighbours along one or two basis directions"""
+            sol = alg.gf2_solve(mc(eqs), nat)
+            if sol is None:
+                return None
+            x0, basis = sol
+            cands = [x0] + [x0 ^ b_ for b_ in basis[:160]] + [x0 ^ basis[i] ^ basis[j] for i in range(min(len(basis), 24)) for j in range(i)]
+            for x in cands:
+                if all(any(value(f, x) for f in d) for d in dis) and (not any(value(s_, x) for s_ in syn)) == want_codeword:
+                    return x
+            return None
+
+        bad = []
+        n_empty = 0
+        for cons, dis in accept:
+            if alg.gf2_solve(mc(cons), nat) is None:
+                n_empty += 1
+                continue                                       # contradictory conditions: the path accepts nothing
+            if all(alg.gf2_implied((s_.m, s_.c), mc(cons)) for s_ in syn):
+                continue                                       # every word of the path is a codeword
+            x = witness(cons, dis, want_codeword=False)
+            if x is None:
+                raise AnalysisError(f"{chk.qualname}: an accepting path is not provably inside the code and no witness was found")
+            bad.append(f"accepts a word that is not a codeword: {word(x)}")
+        for cons, dis in reject:
+            both = mc(cons + syn)
+            if alg.gf2_solve(both, nat) is None:
+                continue                                       # no codeword satisfies the path's equalities
+            if any(all(alg.gf2_implied((f.m, f.c), both) for f in d) for d in dis):
+                continue                                       # every codeword violates one of the path's disequalities
+            x = witness(cons + syn, dis, want_codeword=True)
+            if x is None:
+                raise AnalysisError(f"{chk.qualname}: a rejecting path is not provably outside the code and no witness was found")
+            bad.append(f"rejects a codeword: {word(x)}")
+        if not accept or n_empty == len(accept):
+            bad.append("check accepts nothing")
+        ctx.ob("rs/check-exact", q, not bad,
+               f"{len(accept)} accepting / {len(reject)} rejecting path(s); " + ("; ".join(sorted(set(bad))[:3]) if bad else "every accepting path lies inside the code (S1=S2=S3=0 implied), no rejecting path contains a codeword"), chk.loc)
 
     # ---- lengths
     with ctx.guard(f"{q}: length asserts"):
